@@ -20,7 +20,12 @@ KOf(b, s) == <<Freq(b[1], s[1]), Freq(b[2], s[2]), Freq(b[3], s[3])>>
 (* label of a bin for dfreq = df[1]/df[2]: the L with L^2 <= ratio < (L+1)^2, ratio = A b^2 / (D a^2) *)
 Label(b, s, df) == LET num == AOf(KOf(b, s), s) * Sq(df[2]) den == DOf(s) * Sq(df[1])
                    IN CHOOSE L \in 0..64 : Sq(L) * den <= num /\ num < Sq(L + 1) * den
-OnBoundary(b, s, df) == LET num == AOf(KOf(b, s), s) * Sq(df[2]) den == DOf(s) * Sq(df[1])
+(* with power-of-two box lengths and a dyadic shell width every quantity above is an exact binary
+   floating-point number (sqrt of a perfect square and the quotient are correctly rounded), so the
+   floating-point label equals the exact one and nothing is uncertain *)
+Pow2(n) == n \in {1, 2, 4, 8, 16, 32}
+DyadicExact(s, df) == Pow2(s[1]) /\ Pow2(s[2]) /\ Pow2(s[3]) /\ Pow2(df[2])
+OnBoundary(b, s, df) == ~DyadicExact(s, df) /\ LET num == AOf(KOf(b, s), s) * Sq(df[2]) den == DOf(s) * Sq(df[1])
                             L == Label(b, s, df) IN L > 0 /\ Sq(L) * den = num
 LMax(s, df) == Max({Label(b, s, df) : b \in Bins(s)})
 Shell(s, df, L) == {b \in Bins(s) : Label(b, s, df) = L}
